@@ -240,7 +240,7 @@ func (f *Formatter) formatNode(n *html.Node, buf *strings.Builder, depth int) {
 
 	case html.ElementNode:
 		// Style/script blocks - preserve content as-is
-		if n.Data == "style" || n.Data == "script" {
+		if isRawTextElement(n.Data) {
 			f.formatRawTextElement(n, buf, indent)
 			return
 		}
@@ -313,6 +313,16 @@ func (f *Formatter) formatNode(n *html.Node, buf *strings.Builder, depth int) {
 	}
 }
 
+// isRawTextElement reports whether the HTML parser reads the content of the element as raw
+// text (no markup, no character references): it is written back as it is.
+func isRawTextElement(name string) bool {
+	switch name {
+	case "script", "style", "noscript", "iframe", "xmp", "noembed", "noframes", "plaintext":
+		return true
+	}
+	return false
+}
+
 // formatRawTextElement formats script/style elements preserving their content.
 func (f *Formatter) formatRawTextElement(n *html.Node, buf *strings.Builder, indent string) {
 	buf.WriteString(indent)
@@ -348,7 +358,7 @@ func (f *Formatter) renderPreContent(n *html.Node, buf *strings.Builder) {
 	for c := n.FirstChild; c != nil; c = c.NextSibling {
 		switch c.Type {
 		case html.TextNode:
-			if n.Data == "script" || n.Data == "style" {
+			if isRawTextElement(n.Data) {
 				// raw text: entities are not decoded by the parser, so they must not be encoded
 				buf.WriteString(c.Data)
 				continue
